@@ -44,16 +44,16 @@ type Instance struct {
 	Src      string
 	TypeErrs []string
 	SrcExprs []SrcExpr // argument expressions of the source directive (Y only)
-	T2       []string // hoisting-discipline problems found while rendering (X only)
+	T2       []string  // hoisting-discipline problems found while rendering (X only)
 	// expectations from the description (X) / the source directive (Y)
-	NTasks, NPreds       int
-	Instrumented         bool // directive-level instrumentation
-	HasConcurrency       bool
-	HasContinueOnError   bool
-	NEmitters            int
-	SourceMap            bool
-	Anchors              []string // template files this instance was rendered from
-	GoMinor              int      // minor version of the `go` directive governing the generated code (loop variable semantics)
+	NTasks, NPreds     int
+	Instrumented       bool // directive-level instrumentation
+	HasConcurrency     bool
+	HasContinueOnError bool
+	NEmitters          int
+	SourceMap          bool
+	Anchors            []string // template files this instance was rendered from
+	GoMinor            int      // minor version of the `go` directive governing the generated code (loop variable semantics)
 }
 
 // Pos renders a position inside the instance's source.
